@@ -11,7 +11,7 @@ EXTRACT = ("theories/Extract/XC18.v", "c18", [
     "entry_pairs", "entry_check_rank", "entry_check_bins", "entry_median_ref", "entry_check_mode",
     "entry_indexes_ref", "entry_pairs_ref", "entry_pairs_all"])
 PYX = {}
-RULE = ("corpus/C18 first (F5 witness, single element, nbins=1, zero-count objects, singleton groups), then random "
+RULE = ("quick 4000 / thorough 100000 random cases plus (thorough) every array of length <= 5 over {0,1,2} through rank_order (nbins None,1,2) and mode, every 2x2 count matrix over {0,1,2}, every 2-group layout of <= 4 members; corpus/C18 first (F5 witness, single element, nbins=1, zero-count objects, singleton groups), then random "
         "cases per function: rank_order on 1-D/2-D int and dyadic-float arrays of 1-150 elements with ties and "
         "negatives, nbins None or 1..300 (np.argsort of the histogram is recorded by a proxy and replayed into the "
         "model, which re-checks that every recorded order is a sorting permutation of ITS histogram); "
@@ -161,7 +161,20 @@ def _corpus():
 def generate(ctx):
     rng = ctx.rng
     cases = _corpus()
-    total = ctx.n(1500, 30000)
+    total = ctx.n(4000, 100000)
+    if not ctx.quick():
+        # small exhaustive families (thorough tier): every array of length <= 5 over {0,1,2}
+        import itertools
+        for n in range(1, 6):
+            for a in itertools.product(range(3), repeat=n):
+                for nb in (None, 1, 2):
+                    cases.append({"fn": "rank", "a": list(a), "scale": 0, "shape": None, "nbins": nb, "float": False})
+                cases.append({"fn": "mode", "a": list(a), "scale": 0})
+        for c in itertools.product(range(3), repeat=4):
+            cases.append({"fn": "indexes", "counts": [[c[0], c[1]], [c[2], c[3]]], "oned": False})
+        for n in range(0, 5):
+            for i in itertools.product(range(2), repeat=n):
+                cases.append({"fn": "pairs", "i": list(i), "j": list(range(10, 10 + n))})
     for name, g, frac in _GENS:
         for _ in range(int(total * frac)):
             cases.append(g(ctx, rng))
